@@ -1,6 +1,6 @@
 from .datatypes import *
 from .mesh_data import RawMeshData
-from .mesh import _instanciate_raw_mesh_data
+from .mesh import _instanciate_raw_mesh_data, copy
 from ..geometry import Vec
 from ..utils import keyify, Logger
 
@@ -41,7 +41,8 @@ class SurfaceSubdivision(Logger):
         self.mesh = mesh
 
     def __enter__(self):
-        self.mesh = RawMeshData(self.mesh)
+        # work on a copy: the containers (and the cached connectivity) of the input mesh must not be half-updated
+        self.mesh = RawMeshData(copy(self.mesh, copy_attributes=True))
         self.mesh.face_corners.clear()
         return self
 
@@ -233,6 +234,7 @@ def split_double_boundary_edges_triangles(mesh : SurfaceMesh) -> SurfaceMesh:
         with SurfaceSubdivision(mesh) as subdv:
             for f in pb_faces: # Triangulate face with a vertex in the middle
                 subdv.split_face_as_fan(f)
+        return subdv.mesh
     return mesh
 
 ### Volume Subdivision ###
@@ -248,7 +250,8 @@ class VolumeSubdivision(Logger):
     def __enter__(self):
         self.conn = self.mesh.connectivity
         self.conn._compute_cell_adj()
-        self.mesh = RawMeshData(self.mesh)
+        # work on a copy: the containers (and the cached connectivity) of the input mesh must not be half-updated
+        self.mesh = RawMeshData(copy(self.mesh, copy_attributes=True))
         self.mesh.face_corners.clear()
         self.mesh.cell_corners.clear()
         self.mesh.cell_faces.clear()
